@@ -28,4 +28,4 @@ PY
   )
 fi
 echo "== check $prop against patched tree:"
-cd /verif && VERIF_OUT=/tmp/seed-out-$prop VERIF_REPO=$wt timeout 1200 python3 run.py check $prop 2>&1 | grep -v "^KNOWN-FINDING" | cut -c1-260 | tail -6
+cd ${VERIF_HOME:-/verif} && VERIF_OUT=/tmp/seed-out-$prop VERIF_REPO=$wt timeout 1200 python3 run.py check $prop 2>&1 | grep -v "^KNOWN-FINDING" | cut -c1-260 | tail -6
